@@ -745,7 +745,11 @@ impl ReCompiler {
                 }
             }
 
-            if ret.matches_empty_string() == MATCHES_ZLS_ANYWHERE {
+            // these simplifications hold for a greedy quantifier only: a
+            // reluctant one prefers fewer iterations, so its lower bound
+            // decides how much the term gets to consume
+            let reluctant = self.idx < self.len && self.pattern[self.idx] == '?';
+            if !reluctant && ret.matches_empty_string() == MATCHES_ZLS_ANYWHERE {
                 match quantifier_type {
                     Some('?') => {
                         // can ignore the quantifier
